@@ -195,6 +195,19 @@ class SimClock:
             date = FakeDate
             timedelta = _dt.timedelta
 
+        # the process-wide wall clock too: time.time() is the simulated clock (no read index, no random draw - a
+        # deterministic 100 microseconds per call), so that code measuring elapsed wall time sees the jumps and the
+        # "slow solver" advances. time.monotonic / perf_counter stay real (subprocess time-outs of PuLP use them).
+        import time as _time
+
+        epoch = _dt.datetime(1970, 1, 1)
+
+        def sim_time():
+            clock.now = clock.now + _dt.timedelta(microseconds=100)
+            return (clock.now - epoch).total_seconds()
+
+        self._saved_time = _time.time
+        _time.time = sim_time
         self._saved = (m.ir.date, m.ir.datetime, m.rmnt.date, m.rmnt.datetime)
         m.ir.date = FakeDate
         m.ir.datetime = FakeDateTimeMod
@@ -204,6 +217,9 @@ class SimClock:
     def uninstall(self):
         m = mods()
         m.ir.date, m.ir.datetime, m.rmnt.date, m.rmnt.datetime = self._saved
+        import time as _time
+
+        _time.time = self._saved_time
 
 
 # --------------------------------------------------------------------------- file system
@@ -405,6 +421,9 @@ class _SolverProxy:
                 return st
             if f == "slow" and sim.clock is not None:
                 sim.clock.advance(60.0 * (1 + sim.rng.randrange(600)))
+            if f.startswith("clock:") and sim.clock is not None:
+                # the wall clock steps (NTP correction, VM pause / resume) while this solve runs; harmless by itself
+                sim.clock.advance(float(f.split(":")[1]))
             if f.startswith("iterate:"):
                 # the solver stops with a non-optimal status AFTER writing its last (not feasible, not optimal)
                 # iterate into the variables - what PuLP does when CBC reports "Infeasible" / "Not Solved" with a
